@@ -11,6 +11,8 @@ TRUST = ("z3 5.1; CPython; the symx proxies/rewriter (cross-validated on sampled
 CHECKS = {
  "C01": dict(text="Every member of the conforming-program family (micro skeletons with every operator slot symbolic + generated .c/.h programs with symbolic identifier/constant/literal/operator slots) is analysed by the real pipeline on symbolic text; on every path class: no Error-level diagnostic, no fatal error, no exception.",
              ref="4.1", tech="symbolic execution of the whole pipeline (Lexer + Registry.run + all rules) on program text with symbolic slots (symx + z3)"),
+ "C12": dict(text="Two real lexer runs per path class on the same symbolic characters: the window lexed as is, and with a splice inserted at each token boundary / each punctuator respelled as trigraph or digraph; (type, value) sequences must be equal. Pipeline level: solver-chosen subsets of { } [ ] occurrences of conforming programs respelled; (code, line) multiset unchanged.",
+             ref="4.12", tech="two-run symbolic execution of the lexer / pipeline on shared symbolic characters (symx + z3)"),
  "C13": dict(text="Regex level: the header pattern read from the current source is translated to a z3 regular expression; 'every stdheader instance (all field values, 80-column lines) is accepted' and 'each listed single mutation is rejected' are unsat queries of z3's sequence theory. State-machine level: the real CheckHeader through the real pipeline on instances and structural mutants (INVALID_HEADER count 0 / exactly 1).",
              ref="4.13", tech="z3 string/regex theory queries over symbolic header fields + symx exploration of the header state machine; sat answers replayed on the real tool"),
  "C14": dict(text="Header base name symbolic (every character); expected guard symbol from an independent z3-defined oracle; accepted shape and guard mutations g1..g8 through the real pipeline, under .h and .c names: the matching HEADER_PROT_* diagnostic is present / absent on every path class.",
